@@ -12,10 +12,10 @@ import (
 )
 
 type witness struct {
-	Stream string     `json:"stream"`
-	Case   int        `json:"case"`
-	Config sim.Config `json:"config"`
-	Trace  []string   `json:"trace_tail"`
+	Stream string         `json:"stream"`
+	Case   int            `json:"case"`
+	Config sim.Config     `json:"config"`
+	Trace  []string       `json:"trace_tail"`
 	Stats  map[string]int `json:"stats"`
 }
 
@@ -75,11 +75,13 @@ func runOne(c *verdict.Ctx, stream string, idx int, control bool, cov *covAgg) (
 			_, hi0 := net.MinMaxHeight()
 			net.RunSync(hi0, 60, 400, nil)
 			var label string
-			switch r.Intn(5) {
+			switch r.Intn(7) {
 			case 0:
 				label = "commit-without-block:" + net.RecipeCommitWithoutBlock()
 			case 1, 2:
 				label = "lock-attack:" + net.RecipeLockAttack()
+			case 3, 4:
+				label = "relock-attack:" + net.RecipeRelockAttack()
 			default:
 				label = "split-lock:" + net.RecipeSplitLock()
 			}
